@@ -68,6 +68,12 @@ type BatchEntry struct {
 	Absent bool `json:"absent,omitempty"`
 }
 
+// AttrUpdate is one entry of the legacy AttributeUpdates parameter.
+type AttrUpdate struct {
+	Action string `json:"action"`
+	Value  *val.V `json:"value,omitempty"`
+}
+
 // IndexChange is one GlobalSecondaryIndexUpdate of UpdateTable.
 type IndexChange struct {
 	Create *IndexSpec `json:"create,omitempty"`
@@ -102,6 +108,9 @@ type Op struct {
 	// Billing / NoThroughput (UpdateTable): the BillingMode of the request; its index creations carry no ProvisionedThroughput
 	Billing      string `json:"billing,omitempty"`
 	NoThroughput bool   `json:"nothroughput,omitempty"`
+	// AttrUpd (UpdateItem): the legacy AttributeUpdates parameter - attribute -> action (PUT / ADD / DELETE) and value
+	// (nil: none). Sent as given; the library documents legacy parameters as ignored.
+	AttrUpd map[string]AttrUpdate `json:"attrupd,omitempty"`
 	// SharePtrs (SDK v1): equal values of one request map are ONE *AttributeValue used at several places
 	SharePtrs bool `json:"shareptrs,omitempty"`
 	RetCap string `json:"retcap,omitempty"`
